@@ -212,6 +212,15 @@ func validityViolations(d *definition.PipelinesDef) []string {
 	return out
 }
 
+func total1300(files []c17file) bool {
+	for _, f := range files {
+		if len(f.pipes) >= 1300 {
+			return true
+		}
+	}
+	return false
+}
+
 type c17file struct {
 	rel   string
 	pipes map[string]definition.PipelineDef
@@ -280,6 +289,21 @@ func c17LoadCase(c *CaseCtx) *CaseResult {
 		}
 		files = append(files, f)
 	}
+	if c.Idx%3 == 0 && (c.Idx/3)%20 == 7 {
+		// a very large (but valid) file: > 1 MiB, > 1000 pipelines, long scripts - all of it is loaded
+		big := c17file{rel: filepath.Join("big", "pipelines.yml"), pipes: map[string]definition.PipelineDef{}}
+		for k := 0; k < 1300; k++ {
+			p := c17pipeline(r)
+			for tn, td := range p.Tasks {
+				td.Script = append(td.Script, "echo "+strings.Repeat("x", 600+r.Intn(300)))
+				p.Tasks[tn] = td
+				break
+			}
+			big.pipes[fmt.Sprintf("big_%04d", k)] = p
+		}
+		files = append(files, big)
+		nFiles = len(files)
+	}
 	pattern := filepath.Join(root, "**/pipelines.{yml,yaml}")
 	order := r.Perm(nFiles)
 	mode := c.Idx % 3
@@ -291,7 +315,7 @@ func c17LoadCase(c *CaseCtx) *CaseResult {
 		}
 		got, err := definition.LoadRecursively(pattern)
 		res.Evaluations++
-		res.Situations = append(res.Situations, fmt.Sprintf("valid files=%d", nFiles))
+		res.Situations = append(res.Situations, fmt.Sprintf("valid files=%d large=%v", min(nFiles, 4), total1300(files)))
 		if err != nil {
 			find("C17:valid-definitions-rejected", "a valid definition set does not load: %v", err)
 			break
